@@ -241,7 +241,7 @@ func genC13World(c *Ctx) *c13world {
 // focusFamilies: in focus mode all goroutines draw their operations from one family and apply
 // them to one shared value, so that calls of the same kind overlap.
 var focusFamilies = [][]int{
-	{0, 0, 0, 1, 8}, // Validate / ApplyDefaults on one Resolved
+	{0, 0, 1, 1, 8}, // Validate / ApplyDefaults on one Resolved
 	{2, 2, 4, 3},    // Marshal / CloneSchemas / Unmarshal of one Schema tree
 	{6},             // ForType with the shared options
 	{5, 5, 0},       // Resolve of one shared (fresh) Schema tree, and Validate
